@@ -1,7 +1,902 @@
-//! C33: not implemented yet.
+//! C33: spilled rows round-trip through the spill formats.
+//!
+//! Stage A  `RowSerde::{serialize_row_into, deserialize_row_into, row_size}` on generated rows of all 19
+//!          `Value` variants, several rows appended to one (pre-filled) buffer and decoded in order
+//!          into one reused SmallVec.
+//! Stage B  `PartitionSpiller` write -> (auto)spill -> read, re-read, append after spill, cleanup; some
+//!          partitions stay in memory, some go to files under /verif/scratch/c33-<pid>/.
+//! Stage C  `SpillableBuffer` (subquery spill format, all 23 `OwnedValue` variants), in memory and
+//!          spilled (TMPDIR is pointed at the scratch directory), two buffers interleaved.
+//!
+//! Sub-assertions
+//!   size_eq_written   row_size(row) == bytes appended by serialize_row_into; bytes before untouched
+//!   deterministic     the same row always serializes to the same bytes
+//!   decode_ok         a serialized row decodes without error; decoding consumes exactly its bytes
+//!   type_preserved    every decoded value has the variant of the input value
+//!   value_preserved   ... and the same payload (floats by bits; NaN only has to stay NaN because the
+//!                     format documents a payload-free NAN tag)
+//!   sequence          k rows in one buffer decode in order, offsets advance by the computed sizes
+//!   truncated         every strict prefix of a row is rejected with Err, never a panic
+//!   partition_spiller / subquery_spill   rows come back complete, in order, equal, counters agree
+//!   no_panic
+use crate::report::{catch, panic_site, Ctx};
+use crate::rng::{fnv, Rng};
 use crate::Args;
+use serde_json::{json, Value as J};
+use smallvec::SmallVec;
+use std::borrow::Cow;
+use std::path::PathBuf;
+use turdb::sql::partition_spiller::PartitionSpiller;
+use turdb::sql::row_serde::RowSerde;
+use turdb::sql::subquery::{MaterializedRow, SpillableBuffer};
+use turdb::types::{OwnedValue, Value};
 
-pub fn run(_a: &Args) -> i32 {
-    println!("INCONCLUSIVE property=C33 reason=check not implemented yet");
-    2
+type Row = SmallVec<[Value<'static>; 16]>;
+
+// ---------------------------------------------------------------- generators
+
+fn gen_i64(rng: &mut Rng) -> i64 {
+    match rng.below(4) {
+        0 => *rng.pick(&[0i64, 0, 1, -1, i64::MIN, i64::MAX, i64::MIN + 1, 255, 256, -256, i32::MAX as i64 + 1]),
+        1 => rng.next() as i64,
+        _ => {
+            let v = (rng.next() >> rng.below(64)) as i64;
+            if rng.chance(1, 2) {
+                v.wrapping_neg()
+            } else {
+                v
+            }
+        }
+    }
+}
+fn gen_i32(rng: &mut Rng) -> i32 {
+    match rng.below(3) {
+        0 => *rng.pick(&[0i32, 1, -1, i32::MIN, i32::MAX]),
+        _ => rng.next() as i32,
+    }
+}
+fn gen_f64(rng: &mut Rng) -> f64 {
+    match rng.below(3) {
+        0 => f64::from_bits(*rng.pick(&[
+            0u64,
+            0x8000_0000_0000_0000,
+            0x7FF8_0000_0000_0000,
+            0xFFF8_0000_0000_0000,
+            0x7FF0_0000_0000_0001,
+            0x7FFF_FFFF_FFFF_FFFF,
+            0x7FF0_0000_0000_0000,
+            0xFFF0_0000_0000_0000,
+            1,
+            0x8000_0000_0000_0001,
+            0x0010_0000_0000_0000,
+            0x7FEF_FFFF_FFFF_FFFF,
+            0xFFEF_FFFF_FFFF_FFFF,
+            0x3FF0_0000_0000_0000,
+            0xBFF0_0000_0000_0000,
+        ])),
+        1 => f64::from_bits(rng.next()),
+        _ => (rng.f64() - 0.5) * 10f64.powi(rng.range(-20, 20) as i32),
+    }
+}
+fn gen_f32(rng: &mut Rng) -> f32 {
+    match rng.below(3) {
+        0 => f32::from_bits(*rng.pick(&[0u32, 0x8000_0000, 0x7FC0_0000, 0xFFC0_0000, 0x7F80_0001, 0x7F80_0000, 0xFF80_0000, 1, 0x7F7F_FFFF, 0x3F80_0000])),
+        1 => f32::from_bits(rng.next() as u32),
+        _ => (rng.f64() * 200.0 - 100.0) as f32,
+    }
+}
+fn gen_arr<const N: usize>(rng: &mut Rng) -> [u8; N] {
+    let mut a = [0u8; N];
+    match rng.below(4) {
+        0 => {}
+        1 => a = [0xFF; N],
+        _ => a.copy_from_slice(&rng.bytes(N)),
+    }
+    a
+}
+fn gen_len(rng: &mut Rng, big: usize) -> usize {
+    match rng.below(16) {
+        0 | 1 => 0,
+        2..=9 => rng.usize(1, 24),
+        10..=13 => rng.usize(25, 600),
+        14 => rng.usize(601, 5000),
+        _ => rng.usize(0, big),
+    }
+}
+fn gen_string(rng: &mut Rng, nbytes: usize) -> String {
+    let style = rng.below(4);
+    if nbytes > 256 {
+        let unit = *rng.pick(&["a", "xy ", "\u{e9}", "\u{4e2d}", "\u{1F600}", "\0"]);
+        return unit.repeat(nbytes / unit.len());
+    }
+    let mut s = String::new();
+    loop {
+        let ch: char = match style {
+            0 => (b'a' + rng.below(26) as u8) as char,
+            1 => *rng.pick(&['\0', ' ', '\n', '\'', '"', '\\', '\u{7f}', 'A']),
+            2 => *rng.pick(&['\u{e9}', '\u{4e2d}', '\u{1F600}', '\u{10FFFF}', '\u{80}', '\u{7ff}', '\u{800}', '\u{ffff}']),
+            _ => char::from_u32(rng.below(0x11_0000) as u32).unwrap_or('?'),
+        };
+        if s.len() + ch.len_utf8() > nbytes {
+            break;
+        }
+        s.push(ch);
+    }
+    s
+}
+fn gen_bytes(rng: &mut Rng, n: usize) -> Vec<u8> {
+    match rng.below(5) {
+        0 => vec![0u8; n],
+        1 => vec![0xFF; n],
+        2 => {
+            // looks like serialized data: discriminant bytes of the format itself
+            (0..n).map(|_| *rng.pick(&[0x01u8, 0x14, 0x16, 0x20, 0x21, 0x70, 0x84, 0x00, 0xFF])).collect()
+        }
+        _ => rng.bytes(n),
+    }
+}
+
+const NVARIANTS: u64 = 19;
+
+fn gen_value_of(rng: &mut Rng, variant: u64, big: usize) -> Value<'static> {
+    match variant {
+        0 => Value::Null,
+        1 => Value::Int(gen_i64(rng)),
+        2 => Value::Float(gen_f64(rng)),
+        3 => {
+            let l = gen_len(rng, big);
+            Value::Text(Cow::Owned(gen_string(rng, l)))
+        }
+        4 => {
+            let l = gen_len(rng, big);
+            Value::Blob(Cow::Owned(gen_bytes(rng, l)))
+        }
+        5 => {
+            let l = gen_len(rng, big / 4).min(4096);
+            Value::Vector(Cow::Owned((0..l).map(|_| gen_f32(rng)).collect()))
+        }
+        6 => Value::Uuid(gen_arr::<16>(rng)),
+        7 => Value::MacAddr(gen_arr::<6>(rng)),
+        8 => Value::Inet4(gen_arr::<4>(rng)),
+        9 => Value::Inet6(gen_arr::<16>(rng)),
+        10 => {
+            let l = gen_len(rng, big);
+            Value::Jsonb(Cow::Owned(gen_bytes(rng, l)))
+        }
+        11 => Value::TimestampTz { micros: gen_i64(rng), offset_secs: gen_i32(rng) },
+        12 => Value::Interval { micros: gen_i64(rng), days: gen_i32(rng), months: gen_i32(rng) },
+        13 => Value::Point { x: gen_f64(rng), y: gen_f64(rng) },
+        14 => Value::GeoBox { low: (gen_f64(rng), gen_f64(rng)), high: (gen_f64(rng), gen_f64(rng)) },
+        15 => Value::Circle { center: (gen_f64(rng), gen_f64(rng)), radius: gen_f64(rng) },
+        16 => Value::Enum { type_id: rng.next() as u16, ordinal: *rng.pick(&[0u16, 1, 255, 256, 65535]) },
+        17 => Value::Decimal {
+            digits: match rng.below(3) {
+                0 => *rng.pick(&[0i128, 1, -1, i128::MAX, i128::MIN]),
+                1 => (((rng.next() as u128) << 64) | rng.next() as u128) as i128,
+                _ => gen_i64(rng) as i128,
+            },
+            scale: *rng.pick(&[0i16, 2, -2, i16::MAX, i16::MIN, 18]),
+        },
+        _ => {
+            let l = if rng.chance(1, 2) { 17 } else { gen_len(rng, 64) };
+            let mut b = gen_bytes(rng, l);
+            if l > 0 {
+                b[0] = 0xFE;
+            }
+            Value::ToastPointer(Cow::Owned(b))
+        }
+    }
+}
+
+fn gen_row(rng: &mut Rng, maxcols: usize, big: usize) -> Row {
+    let style = rng.below(8);
+    let n = match style {
+        0 => NVARIANTS as usize, // every variant once
+        1 => 0,
+        _ => {
+            if rng.chance(1, 40) {
+                rng.usize(0, maxcols)
+            } else {
+                rng.usize(0, maxcols.min(20))
+            }
+        }
+    };
+    let one = rng.below(NVARIANTS);
+    let mut row = Row::new();
+    for i in 0..n {
+        let variant = match style {
+            0 => i as u64,
+            2 => one,
+            3 => *rng.pick(&[1u64, 2, 2, 3, 0]), // int/float/text rows as hash joins see them
+            _ => rng.below(NVARIANTS),
+        };
+        row.push(gen_value_of(rng, variant, big));
+    }
+    if style == 0 && rng.chance(1, 2) {
+        let mut v: Vec<Value<'static>> = row.into_iter().collect();
+        rng.shuffle(&mut v);
+        row = v.into_iter().collect();
+    }
+    row
+}
+
+// ---------------------------------------------------------------- comparison
+
+fn vname(v: &Value<'_>) -> &'static str {
+    match v {
+        Value::Null => "Null",
+        Value::Int(_) => "Int",
+        Value::Float(_) => "Float",
+        Value::Text(_) => "Text",
+        Value::Blob(_) => "Blob",
+        Value::Vector(_) => "Vector",
+        Value::Uuid(_) => "Uuid",
+        Value::MacAddr(_) => "MacAddr",
+        Value::Inet4(_) => "Inet4",
+        Value::Inet6(_) => "Inet6",
+        Value::Jsonb(_) => "Jsonb",
+        Value::TimestampTz { .. } => "TimestampTz",
+        Value::Interval { .. } => "Interval",
+        Value::Point { .. } => "Point",
+        Value::GeoBox { .. } => "GeoBox",
+        Value::Circle { .. } => "Circle",
+        Value::Enum { .. } => "Enum",
+        Value::Decimal { .. } => "Decimal",
+        Value::ToastPointer(_) => "ToastPointer",
+    }
+}
+/// class of the *input* used in signatures: the zero floats are their own class because the format
+/// has a dedicated ZERO tag
+fn vclass(v: &Value<'_>) -> &'static str {
+    match v {
+        Value::Float(f) if *f == 0.0 => "Float(zero)",
+        Value::Float(f) if f.is_nan() => "Float(nan)",
+        Value::Float(f) if f.is_infinite() => "Float(inf)",
+        Value::Int(0) => "Int(zero)",
+        other => vname(other),
+    }
+}
+
+enum Cmp {
+    Same,
+    /// Float NaN in, Float NaN with a different payload out (allowed: payload-free NAN tag is documented)
+    NanCanon,
+    Type,
+    Payload,
+}
+
+fn b(x: f64, y: f64) -> bool {
+    x.to_bits() == y.to_bits()
+}
+
+fn cmp_val(a: &Value<'_>, o: &Value<'_>) -> Cmp {
+    if std::mem::discriminant(a) != std::mem::discriminant(o) {
+        return Cmp::Type;
+    }
+    let same = match (a, o) {
+        (Value::Null, Value::Null) => true,
+        (Value::Int(x), Value::Int(y)) => x == y,
+        (Value::Float(x), Value::Float(y)) => {
+            if x.is_nan() && y.is_nan() && x.to_bits() != y.to_bits() {
+                return Cmp::NanCanon;
+            }
+            b(*x, *y)
+        }
+        (Value::Text(x), Value::Text(y)) => x == y,
+        (Value::Blob(x), Value::Blob(y)) => x == y,
+        (Value::Vector(x), Value::Vector(y)) => x.len() == y.len() && x.iter().zip(y.iter()).all(|(p, q)| p.to_bits() == q.to_bits()),
+        (Value::Uuid(x), Value::Uuid(y)) => x == y,
+        (Value::MacAddr(x), Value::MacAddr(y)) => x == y,
+        (Value::Inet4(x), Value::Inet4(y)) => x == y,
+        (Value::Inet6(x), Value::Inet6(y)) => x == y,
+        (Value::Jsonb(x), Value::Jsonb(y)) => x == y,
+        (Value::TimestampTz { micros: m1, offset_secs: o1 }, Value::TimestampTz { micros: m2, offset_secs: o2 }) => m1 == m2 && o1 == o2,
+        (Value::Interval { micros: m1, days: d1, months: n1 }, Value::Interval { micros: m2, days: d2, months: n2 }) => m1 == m2 && d1 == d2 && n1 == n2,
+        (Value::Point { x: x1, y: y1 }, Value::Point { x: x2, y: y2 }) => b(*x1, *x2) && b(*y1, *y2),
+        (Value::GeoBox { low: l1, high: h1 }, Value::GeoBox { low: l2, high: h2 }) => b(l1.0, l2.0) && b(l1.1, l2.1) && b(h1.0, h2.0) && b(h1.1, h2.1),
+        (Value::Circle { center: c1, radius: r1 }, Value::Circle { center: c2, radius: r2 }) => b(c1.0, c2.0) && b(c1.1, c2.1) && b(*r1, *r2),
+        (Value::Enum { type_id: t1, ordinal: o1 }, Value::Enum { type_id: t2, ordinal: o2 }) => t1 == t2 && o1 == o2,
+        (Value::Decimal { digits: d1, scale: s1 }, Value::Decimal { digits: d2, scale: s2 }) => d1 == d2 && s1 == s2,
+        (Value::ToastPointer(x), Value::ToastPointer(y)) => x == y,
+        _ => false,
+    };
+    if same {
+        Cmp::Same
+    } else {
+        Cmp::Payload
+    }
+}
+
+fn trunc(s: String) -> String {
+    if s.len() > 200 {
+        let mut e = 200;
+        while !s.is_char_boundary(e) {
+            e -= 1;
+        }
+        format!("{}...({} bytes)", &s[..e], s.len())
+    } else {
+        s
+    }
+}
+
+fn describe(row: &[Value<'_>]) -> J {
+    J::Array(row.iter().take(40).map(|v| json!(trunc(format!("{:?}", v)))).collect())
+}
+
+thread_local! {
+    static SEEN: std::cell::RefCell<std::collections::HashMap<String, u64>> = std::cell::RefCell::new(std::collections::HashMap::new());
+}
+
+/// Every failing observation is counted under `failing:<sig>`; known findings are always forwarded
+/// (they only count), an unexplained signature is forwarded the first time only so that each
+/// distinct signature gets a replay file.
+fn viol(ctx: &mut Ctx, assertion: &str, sig: &str, detail: impl FnOnce() -> J) {
+    ctx.count(&format!("failing:{}", sig), 1);
+    let n = SEEN.with(|s| {
+        let mut s = s.borrow_mut();
+        let e = s.entry(sig.to_string()).or_insert(0);
+        *e += 1;
+        *e
+    });
+    if ctx.is_known(sig).is_some() || n <= 1 {
+        ctx.violation(assertion, sig, detail());
+    } else {
+        ctx.count("violations_not_forwarded_after_first_per_sig", 1);
+    }
+}
+
+/// compare a decoded row with the model row; returns number of mismatching values
+fn compare_rows(ctx: &mut Ctx, stage: &str, case: u64, want: &[Value<'_>], got: &[Value<'_>]) -> u64 {
+    if want.len() != got.len() {
+        viol(ctx, "decode_ok", &format!("C33/{}/column_count", stage_sig(stage)), || json!({"case": case, "stage": stage, "want_cols": want.len(), "got_cols": got.len(), "row": describe(want)}));
+        return 1;
+    }
+    let mut bad = 0;
+    let mut reported = std::collections::HashSet::new();
+    for (i, (w, g)) in want.iter().zip(got.iter()).enumerate() {
+        match cmp_val(w, g) {
+            Cmp::Same => {}
+            Cmp::NanCanon => ctx.count("nan_payload_canonicalised", 1),
+            Cmp::Type => {
+                bad += 1;
+                let sig = format!("C33/type_preserved/{}_decodes_as_{}", vclass(w), vname(g));
+                if reported.insert(sig.clone()) {
+                    viol(ctx, "type_preserved", &sig, || json!({"case": case, "stage": stage, "col": i, "in": trunc(format!("{:?}", w)), "out": trunc(format!("{:?}", g)), "row": describe(want)}));
+                }
+            }
+            Cmp::Payload => {
+                bad += 1;
+                let sig = format!("C33/value_preserved/{}", vclass(w));
+                if reported.insert(sig.clone()) {
+                    viol(ctx, "value_preserved", &sig, || json!({"case": case, "stage": stage, "col": i, "in": trunc(format!("{:?}", w)), "out": trunc(format!("{:?}", g)), "row": describe(want)}));
+                }
+            }
+        }
+    }
+    bad
+}
+
+fn stage_sig(stage: &str) -> &'static str {
+    if stage.starts_with("partition") {
+        "partition_spiller"
+    } else if stage.starts_with("subquery") {
+        "subquery_spill"
+    } else {
+        "decode_ok"
+    }
+}
+
+fn row_hash(row: &[Value<'_>]) -> u64 {
+    // value class (variant + zero/nan/inf, i.e. the format's tag space) and log2 of the encoded size
+    let mut k = Vec::with_capacity(row.len() * 2);
+    for v in row {
+        k.push((fnv(vclass(v).as_bytes()) & 0xff) as u8);
+        let sz = RowSerde::row_size(std::slice::from_ref(v));
+        k.push((usize::BITS - sz.leading_zeros()) as u8);
+    }
+    fnv(&k)
+}
+
+// ---------------------------------------------------------------- stage A: RowSerde
+
+fn stage_serde(ctx: &mut Ctx, rng: &mut Rng, case: u64, maxcols: usize, big: usize, prefix_all: bool) {
+    let k = rng.usize(1, 8);
+    let rows: Vec<Row> = (0..k).map(|_| gen_row(rng, maxcols, big)).collect();
+    let guard_len = rng.usize(0, 12);
+    let guard = rng.bytes(guard_len);
+    let r = catch(|| {
+        let mut buf: Vec<u8> = guard.clone();
+        let mut ends: Vec<usize> = vec![];
+        let mut problems: Vec<(&'static str, String, J)> = vec![];
+        for (j, row) in rows.iter().enumerate() {
+            let before = buf.len();
+            let sz = RowSerde::row_size(row);
+            RowSerde::serialize_row_into(row, &mut buf);
+            let written = buf.len() - before;
+            if sz != written {
+                // attribute: which single value has a wrong size?
+                let mut culprit = "row";
+                for v in row.iter() {
+                    let one = std::slice::from_ref(v);
+                    let mut t = vec![];
+                    RowSerde::serialize_row_into(one, &mut t);
+                    if RowSerde::row_size(one) != t.len() {
+                        culprit = vclass(v);
+                        break;
+                    }
+                }
+                problems.push(("size_eq_written", format!("C33/size_eq_written/{}", culprit), json!({"row_index": j, "row_size": sz, "written": written, "row": describe(row)})));
+            }
+            if buf[..guard.len()] != guard[..] {
+                problems.push(("size_eq_written", "C33/size_eq_written/wrote_before_append_point".into(), json!({"row_index": j})));
+            }
+            let mut again = Vec::new();
+            RowSerde::serialize_row_into(row, &mut again);
+            if again[..] != buf[before..] {
+                problems.push(("deterministic", "C33/deterministic/bytes_differ".into(), json!({"row_index": j, "row": describe(row)})));
+            }
+            ends.push(buf.len());
+        }
+        (buf, ends, problems)
+    });
+    let (buf, ends, problems) = match r {
+        Ok(x) => x,
+        Err(p) => {
+            viol(ctx, "no_panic", &format!("C33/no_panic/serialize@{}", panic_site(&p)), || json!({"case": case, "panic": p, "first_row": describe(&rows[0])}));
+            return;
+        }
+    };
+    for (a, s, d) in problems {
+        viol(ctx, a, &s, || json!({"case": case, "problem": d}));
+    }
+    // decode in order into ONE reused output vector
+    let mut out: Row = Row::new();
+    out.push(Value::Text(Cow::Owned("stale".into()))); // must be cleared by the decoder
+    let mut off = guard.len();
+    for (j, row) in rows.iter().enumerate() {
+        ctx.eval();
+        let res = catch(|| RowSerde::deserialize_row_into(&buf, &mut off, &mut out).map_err(|e| e.to_string()));
+        match res {
+            Ok(Ok(())) => {
+                let bad = compare_rows(ctx, "serde", case, row, &out);
+                if off != ends[j] {
+                    viol(ctx, "sequence", "C33/sequence/offset_after_row", || json!({"case": case, "row_index": j, "offset": off, "want": ends[j], "row": describe(row)}));
+                    return;
+                }
+                if bad == 0 && !row.is_empty() {
+                    ctx.nontrivial(row_hash(row));
+                }
+                ctx.count("values_round_tripped", row.len() as u64);
+            }
+            Ok(Err(e)) => {
+                viol(ctx, "decode_ok", "C33/decode_ok/err_on_valid_row", || json!({"case": case, "row_index": j, "err": e, "row": describe(row)}));
+                return;
+            }
+            Err(p) => {
+                viol(ctx, "no_panic", &format!("C33/no_panic/deserialize@{}", panic_site(&p)), || json!({"case": case, "row_index": j, "panic": p, "row": describe(row)}));
+                return;
+            }
+        }
+    }
+    ctx.count("rows_in_sequences", rows.len() as u64);
+    // nothing left: one more decode must be an error, not a row
+    match catch(|| RowSerde::deserialize_row_into(&buf, &mut off, &mut out).is_err()) {
+        Ok(true) => {}
+        Ok(false) => viol(ctx, "sequence", "C33/sequence/row_decoded_past_end", || json!({"case": case})),
+        Err(p) => viol(ctx, "no_panic", &format!("C33/no_panic/deserialize_at_end@{}", panic_site(&p)), || json!({"case": case, "panic": p})),
+    }
+    // strict prefixes of the first row
+    let start = guard.len();
+    let end = ends[0];
+    let len = end - start;
+    if len > 0 {
+        let cuts: Vec<usize> = if prefix_all && len <= 400 { (0..len).collect() } else { (0..6).map(|_| rng.usize(0, len - 1)).collect() };
+        for cut in cuts {
+            ctx.count("truncated_prefixes", 1);
+            let slice = &buf[..start + cut];
+            let mut o = start;
+            let mut tmp: Row = Row::new();
+            match catch(|| RowSerde::deserialize_row_into(slice, &mut o, &mut tmp).is_err()) {
+                Ok(true) => {}
+                Ok(false) => {
+                    viol(ctx, "truncated", "C33/truncated/prefix_accepted", || json!({"case": case, "cut": cut, "len": len, "row": describe(&rows[0])}));
+                    break;
+                }
+                Err(p) => {
+                    viol(ctx, "no_panic", &format!("C33/no_panic/deserialize_truncated@{}", panic_site(&p)), || json!({"case": case, "cut": cut, "len": len, "panic": p, "row": describe(&rows[0])}));
+                    break;
+                }
+            }
+        }
+    }
+}
+
+// ---------------------------------------------------------------- stage B: PartitionSpiller
+
+fn stage_partition(ctx: &mut Ctx, rng: &mut Rng, case: u64, scratch: &PathBuf, files: bool) {
+    ctx.eval();
+    let np = rng.usize(1, 8);
+    let per = if !files {
+        1usize << 40
+    } else {
+        *rng.pick(&[0usize, 40, 200, 1000, 5000, 16384, 1 << 40])
+    };
+    let budget = per * np + rng.usize(0, np - 1); // memory_budget / num_partitions == per
+    let dir = scratch.join(format!("ps{}", case)).join("partition");
+    let side = if rng.chance(1, 2) { 'L' } else { 'R' };
+    let nrows1 = rng.usize(0, 60);
+    let nrows2 = rng.usize(0, 25);
+    let big = if files { 3000 } else { 200 };
+    let mut plan: Vec<(usize, Row)> = vec![];
+    for _ in 0..nrows1 + nrows2 {
+        let p = if rng.chance(1, 3) { 0 } else { rng.usize(0, np - 1) };
+        plan.push((p, gen_row(rng, 12, big)));
+    }
+    let r = catch(|| -> Vec<(&'static str, String, J)> {
+        let mut problems: Vec<(&'static str, String, J)> = vec![];
+        let mut sp = match PartitionSpiller::new(dir.clone(), np, budget, case, side) {
+            Ok(s) => s,
+            Err(e) => {
+                problems.push(("partition_spiller", "C33/partition_spiller/new_err".into(), json!({"err": e.to_string()})));
+                return problems;
+            }
+        };
+        let mut model: Vec<Vec<Row>> = vec![vec![]; np];
+        let mut msize: Vec<usize> = vec![0; np];
+        let mut mspilled: Vec<bool> = vec![false; np];
+        let mut mismatches: Vec<(usize, Row, Row)> = vec![];
+        for phase in 0..2 {
+            let slice = if phase == 0 { &plan[..nrows1] } else { &plan[nrows1..] };
+            for (p, row) in slice {
+                if let Err(e) = sp.write_row(*p, row.clone()) {
+                    problems.push(("partition_spiller", "C33/partition_spiller/write_err".into(), json!({"err": e.to_string(), "partition": p})));
+                    return problems;
+                }
+                model[*p].push(row.clone());
+                if !mspilled[*p] {
+                    msize[*p] += RowSerde::row_size(row);
+                    if msize[*p] > per {
+                        mspilled[*p] = true;
+                    }
+                }
+            }
+            // read every partition twice
+            for p in 0..np {
+                if sp.partition_row_count(p) != model[p].len() {
+                    problems.push(("partition_spiller", "C33/partition_spiller/row_count".into(), json!({"partition": p, "got": sp.partition_row_count(p), "want": model[p].len(), "spilled": sp.partition_is_spilled(p), "phase": phase})));
+                }
+                if sp.partition_is_spilled(p) != mspilled[p] {
+                    problems.push(("partition_spiller", "C33/partition_spiller/spilled_flag".into(), json!({"partition": p, "got": sp.partition_is_spilled(p), "model_bytes": msize[p], "per_partition_budget": per, "phase": phase})));
+                }
+                for pass in 0..2 {
+                    if let Err(e) = sp.start_read(p) {
+                        problems.push(("partition_spiller", "C33/partition_spiller/start_read_err".into(), json!({"err": e.to_string(), "partition": p})));
+                        break;
+                    }
+                    let mut i = 0usize;
+                    loop {
+                        match sp.read_next() {
+                            Ok(Some(vals)) => {
+                                if i >= model[p].len() {
+                                    problems.push(("partition_spiller", "C33/partition_spiller/extra_row".into(), json!({"partition": p, "spilled": mspilled[p], "phase": phase, "pass": pass})));
+                                    break;
+                                }
+                                let same = vals.len() == model[p][i].len() && vals.iter().zip(model[p][i].iter()).all(|(g, w)| matches!(cmp_val(w, g), Cmp::Same | Cmp::NanCanon));
+                                if !same && pass == 0 {
+                                    mismatches.push((p, model[p][i].clone(), vals.iter().cloned().collect()));
+                                }
+                                i += 1;
+                            }
+                            Ok(None) => break,
+                            Err(e) => {
+                                problems.push(("partition_spiller", "C33/partition_spiller/read_err".into(), json!({"err": e.to_string(), "partition": p, "at_row": i, "spilled": mspilled[p]})));
+                                break;
+                            }
+                        }
+                    }
+                    if i < model[p].len() && !problems.iter().any(|x| x.1.ends_with("read_err") || x.1.ends_with("extra_row")) {
+                        problems.push(("partition_spiller", "C33/partition_spiller/missing_rows".into(), json!({"partition": p, "read": i, "want": model[p].len(), "spilled": mspilled[p], "phase": phase, "pass": pass})));
+                    }
+                    if !matches!(sp.read_next(), Ok(None)) && i == model[p].len() {
+                        problems.push(("partition_spiller", "C33/partition_spiller/read_after_end".into(), json!({"partition": p})));
+                    }
+                    sp.end_read();
+                }
+            }
+        }
+        let any_spilled = mspilled.iter().any(|x| *x);
+        if let Err(e) = sp.cleanup() {
+            problems.push(("partition_spiller", "C33/partition_spiller/cleanup_err".into(), json!({"err": e.to_string()})));
+        }
+        drop(sp);
+        if files {
+            let left: Vec<String> = std::fs::read_dir(&dir).map(|d| d.filter_map(|e| e.ok()).map(|e| e.file_name().to_string_lossy().to_string()).collect()).unwrap_or_default();
+            if !left.is_empty() {
+                problems.push(("partition_spiller", "C33/partition_spiller/cleanup_left_files".into(), json!({"left": left})));
+            }
+        }
+        let _ = any_spilled;
+        problems.push(("__stats", String::new(), json!({"nspilled": mspilled.iter().filter(|x| **x).count(), "np": np})));
+        for (_p, w, g) in mismatches {
+            MISMATCH.with(|m| m.borrow_mut().push((w, g)));
+        }
+        problems
+    });
+    if files {
+        let _ = std::fs::remove_dir_all(scratch.join(format!("ps{}", case)));
+    }
+    match r {
+        Ok(problems) => {
+            for (a, s, d) in problems {
+                if a == "__stats" {
+                    ctx.count("partition_spillers", 1);
+                    ctx.count("partitions", d["np"].as_u64().unwrap_or(0));
+                    ctx.count("partitions_spilled_to_file", d["nspilled"].as_u64().unwrap_or(0));
+                    let rows: u64 = plan.len() as u64;
+                    ctx.count("partition_rows", rows);
+                    ctx.nontrivial(fnv(format!("ps:{}:{}:{}", d["np"], d["nspilled"], rows).as_bytes()) | 1 << 63);
+                } else {
+                    viol(ctx, a, &s, || json!({"case": case, "np": np, "per_partition_budget": per, "problem": d}));
+                }
+            }
+            let mm: Vec<(Row, Row)> = MISMATCH.with(|m| std::mem::take(&mut *m.borrow_mut()));
+            for (w, g) in mm {
+                compare_rows(ctx, "partition_spiller", case, &w, &g);
+            }
+        }
+        Err(p) => {
+            MISMATCH.with(|m| m.borrow_mut().clear());
+            viol(ctx, "no_panic", &format!("C33/no_panic/partition_spiller@{}", panic_site(&p)), || json!({"case": case, "np": np, "per_partition_budget": per, "panic": p}));
+        }
+    }
+}
+
+thread_local! {
+    static MISMATCH: std::cell::RefCell<Vec<(Row, Row)>> = std::cell::RefCell::new(vec![]);
+}
+
+// ---------------------------------------------------------------- stage C: SpillableBuffer (subquery spill)
+
+fn gen_owned(rng: &mut Rng, big: usize) -> OwnedValue {
+    match rng.below(23) {
+        0 => OwnedValue::Null,
+        1 => OwnedValue::Bool(rng.chance(1, 2)),
+        2 => OwnedValue::Int(gen_i64(rng)),
+        3 => OwnedValue::Float(gen_f64(rng)),
+        4 => {
+            let l = gen_len(rng, big);
+            OwnedValue::Text(gen_string(rng, l))
+        }
+        5 => {
+            let l = gen_len(rng, big);
+            OwnedValue::Blob(gen_bytes(rng, l))
+        }
+        6 => {
+            let l = gen_len(rng, big / 4).min(2048);
+            OwnedValue::Vector((0..l).map(|_| gen_f32(rng)).collect())
+        }
+        7 => OwnedValue::Date(gen_i32(rng)),
+        8 => OwnedValue::Time(gen_i64(rng)),
+        9 => OwnedValue::Timestamp(gen_i64(rng)),
+        10 => OwnedValue::TimestampTz(gen_i64(rng), gen_i32(rng)),
+        11 => OwnedValue::Uuid(gen_arr::<16>(rng)),
+        12 => OwnedValue::MacAddr(gen_arr::<6>(rng)),
+        13 => OwnedValue::Inet4(gen_arr::<4>(rng)),
+        14 => OwnedValue::Inet6(gen_arr::<16>(rng)),
+        15 => OwnedValue::Interval(gen_i64(rng), gen_i32(rng), gen_i32(rng)),
+        16 => OwnedValue::Point(gen_f64(rng), gen_f64(rng)),
+        17 => OwnedValue::Box((gen_f64(rng), gen_f64(rng)), (gen_f64(rng), gen_f64(rng))),
+        18 => OwnedValue::Circle((gen_f64(rng), gen_f64(rng)), gen_f64(rng)),
+        19 => {
+            let l = gen_len(rng, big);
+            OwnedValue::Jsonb(gen_bytes(rng, l))
+        }
+        20 => OwnedValue::Decimal(((((rng.next() as u128) << 64) | rng.next() as u128) as i128) >> rng.below(120), gen_i32(rng) as i16),
+        21 => OwnedValue::Enum(rng.next() as u16, rng.next() as u16),
+        _ => {
+            let l = gen_len(rng, 40);
+            OwnedValue::ToastPointer(gen_bytes(rng, l))
+        }
+    }
+}
+
+fn oname(v: &OwnedValue) -> String {
+    let s = format!("{:?}", v);
+    s.split(|c: char| c == '(' || c == ' ').next().unwrap_or("?").to_string()
+}
+
+fn owned_same(a: &OwnedValue, o: &OwnedValue) -> bool {
+    use OwnedValue as O;
+    match (a, o) {
+        (O::Float(x), O::Float(y)) => b(*x, *y),
+        (O::Vector(x), O::Vector(y)) => x.len() == y.len() && x.iter().zip(y.iter()).all(|(p, q)| p.to_bits() == q.to_bits()),
+        (O::Point(a0, a1), O::Point(b0, b1)) => b(*a0, *b0) && b(*a1, *b1),
+        (O::Box(al, ah), O::Box(bl, bh)) => b(al.0, bl.0) && b(al.1, bl.1) && b(ah.0, bh.0) && b(ah.1, bh.1),
+        (O::Circle(ac, ar), O::Circle(bc, br)) => b(ac.0, bc.0) && b(ac.1, bc.1) && b(*ar, *br),
+        _ => std::mem::discriminant(a) == std::mem::discriminant(o) && a == o,
+    }
+}
+
+fn check_mrows(ctx: &mut Ctx, case: u64, which: &str, want: &[MaterializedRow], got: &[MaterializedRow], spilled: bool) {
+    if want.len() != got.len() {
+        viol(ctx, "subquery_spill", "C33/subquery_spill/row_count", || json!({"case": case, "buffer": which, "want": want.len(), "got": got.len(), "spilled": spilled}));
+        return;
+    }
+    for (i, (w, g)) in want.iter().zip(got.iter()).enumerate() {
+        if w.values.len() != g.values.len() {
+            viol(ctx, "subquery_spill", "C33/subquery_spill/column_count", || json!({"case": case, "row": i, "spilled": spilled}));
+            return;
+        }
+        for (wv, gv) in w.values.iter().zip(g.values.iter()) {
+            if !owned_same(wv, gv) {
+                let sig = if std::mem::discriminant(wv) != std::mem::discriminant(gv) {
+                    format!("C33/subquery_spill/type_preserved/{}_decodes_as_{}", oname(wv), oname(gv))
+                } else {
+                    format!("C33/subquery_spill/value_preserved/{}", oname(wv))
+                };
+                viol(ctx, "subquery_spill", &sig, || json!({"case": case, "buffer": which, "row": i, "spilled": spilled, "in": trunc(format!("{:?}", wv)), "out": trunc(format!("{:?}", gv))}));
+                return;
+            }
+        }
+    }
+}
+
+fn stage_subquery(ctx: &mut Ctx, rng: &mut Rng, case: u64, files: bool) {
+    ctx.eval();
+    let two = rng.chance(1, 3);
+    let mk = |rng: &mut Rng| -> (usize, Vec<MaterializedRow>) {
+        let limit = if !files { usize::MAX / 4 } else { *rng.pick(&[0usize, 1, 100, 1000, 20_000, usize::MAX / 4]) };
+        let n = rng.usize(0, 50);
+        let rows = (0..n)
+            .map(|_| {
+                let nc = if rng.chance(1, 10) { 0 } else { rng.usize(1, 10) };
+                MaterializedRow::new((0..nc).map(|_| gen_owned(rng, if files { 3000 } else { 100 })).collect())
+            })
+            .collect();
+        (limit, rows)
+    };
+    let (l1, r1) = mk(rng);
+    let (l2, r2) = if two { mk(rng) } else { (0, vec![]) };
+    let use_into_vec = rng.chance(1, 2);
+    let r = catch(|| -> Result<(Vec<MaterializedRow>, bool, usize, Vec<MaterializedRow>, bool), String> {
+        let mut b1 = SpillableBuffer::new(l1);
+        let mut b2 = SpillableBuffer::new(l2);
+        let m = r1.len().max(r2.len());
+        for i in 0..m {
+            if i < r1.len() {
+                b1.push(r1[i].clone()).map_err(|e| format!("push: {}", e))?;
+            }
+            if two && i < r2.len() {
+                b2.push(r2[i].clone()).map_err(|e| format!("push: {}", e))?;
+            }
+        }
+        let s1 = b1.is_spilled();
+        let s2 = b2.is_spilled();
+        let c1 = b1.row_count();
+        let g1: Vec<MaterializedRow> = if use_into_vec {
+            b1.into_vec().map_err(|e| format!("into_vec: {}", e))?
+        } else {
+            let mut v = vec![];
+            for x in b1.iter().map_err(|e| format!("iter: {}", e))? {
+                v.push(x.map_err(|e| format!("iter item: {}", e))?);
+            }
+            v
+        };
+        let g2: Vec<MaterializedRow> = if two { b2.into_vec().map_err(|e| format!("into_vec: {}", e))? } else { vec![] };
+        Ok((g1, s1, c1, g2, s2))
+    });
+    match r {
+        Ok(Ok((g1, s1, c1, g2, s2))) => {
+            if c1 != r1.len() {
+                viol(ctx, "subquery_spill", "C33/subquery_spill/row_count_counter", || json!({"case": case, "row_count": c1, "pushed": r1.len()}));
+            }
+            if l1 >= usize::MAX / 4 && s1 {
+                viol(ctx, "subquery_spill", "C33/subquery_spill/spilled_under_unbounded_limit", || json!({"case": case}));
+            }
+            check_mrows(ctx, case, "first", &r1, &g1, s1);
+            if two {
+                check_mrows(ctx, case, "second", &r2, &g2, s2);
+            }
+            ctx.count("subquery_buffers", 1 + two as u64);
+            ctx.count("subquery_buffers_spilled", s1 as u64 + (two && s2) as u64);
+            ctx.count("subquery_rows", (r1.len() + r2.len()) as u64);
+            ctx.nontrivial(fnv(format!("sq:{}:{}:{}:{}", r1.len(), s1, r2.len(), s2).as_bytes()) | 1 << 62);
+        }
+        Ok(Err(e)) => viol(ctx, "subquery_spill", "C33/subquery_spill/err", || json!({"case": case, "err": e, "limit": l1})),
+        Err(p) => viol(ctx, "no_panic", &format!("C33/no_panic/subquery_spill@{}", panic_site(&p)), || json!({"case": case, "panic": p})),
+    }
+}
+
+pub fn run(a: &Args) -> i32 {
+    let miri = cfg!(miri);
+    let mut ctx = Ctx::new(
+        "C33",
+        &a.tier,
+        a.seed,
+        "exploration",
+        "RowSerde: sequences of 1..8 rows (0..20 columns, 1 in 40 up to 300; styles: every variant once, one variant repeated, int/float/text join rows, random) over all 19 Value variants with boundary payloads (ints 0/+-1/MIN/MAX, floats +-0/NaN payloads/inf/subnormal by bits, empty and up-to-1-MiB text/blob/jsonb, vectors, 17-byte toast pointers) appended to a pre-filled buffer and decoded in order into one reused SmallVec; every strict prefix of the first row. PartitionSpiller: 1..8 partitions, per-partition budget 0..unbounded so in-memory and on-disk partitions coexist, two write phases (append after spill) each followed by two full reads of every partition, cleanup. SpillableBuffer: all 23 OwnedValue variants, limit 0..unbounded, iter/into_vec, two live buffers interleaved. A case = one decoded row (A) / one spiller (B) / one buffer pair (C). distinct_nontrivial = distinct (value class sequence, log2 encoded sizes) of rows that decoded and compared clean, plus distinct spiller/buffer shapes",
+    );
+    let mut rng = Rng::derive(a.seed, 33);
+    let quick = ctx.quick();
+    let files = !miri;
+    let scratch = PathBuf::from(format!("/verif/scratch/c33-{}", std::process::id()));
+    if files {
+        let _ = std::fs::create_dir_all(&scratch);
+        // SpillableBuffer spills into std::env::temp_dir(); keep that inside the scratch directory
+        std::env::set_var("TMPDIR", &scratch);
+    }
+    let mut case = 0u64;
+
+    // A
+    let nseq: u64 = if miri { 60 } else if quick { 60_000 } else { 1_200_000 };
+    for i in 0..nseq {
+        let big = if miri {
+            300
+        } else if i % 500 == 7 {
+            1 << 20
+        } else if i % 20 == 3 {
+            70_000
+        } else {
+            2_000
+        };
+        stage_serde(&mut ctx, &mut rng, case, if miri { 24 } else { 300 }, big, !quick || i % 4 == 0);
+        case += 1;
+    }
+    // the widest row the u16 column count can describe
+    if !miri {
+        let wide: Row = (0..65535u32).map(|i| if i % 3 == 0 { Value::Null } else { Value::Int(i as i64 - 7) }).collect();
+        let mut buf = vec![];
+        let r = catch(|| {
+            RowSerde::serialize_row_into(&wide, &mut buf);
+            let mut out = Row::new();
+            let mut off = 0;
+            let ok = RowSerde::deserialize_row_into(&buf, &mut off, &mut out).is_ok();
+            (ok, off, out)
+        });
+        ctx.eval();
+        match r {
+            Ok((true, off, out)) if off == buf.len() && RowSerde::row_size(&wide) == buf.len() => {
+                compare_rows(&mut ctx, "serde", case, &wide, &out);
+            }
+            Ok((ok, off, _)) => {
+                viol(&mut ctx, "decode_ok", "C33/decode_ok/65535_column_row", || json!({"ok": ok, "offset": off, "len": buf.len()}));
+            }
+            Err(p) => {
+                viol(&mut ctx, "no_panic", &format!("C33/no_panic/65535_column_row@{}", panic_site(&p)), || json!({"panic": p}));
+            }
+        }
+        case += 1;
+    }
+    ctx.count("serde_sequences", nseq);
+    ctx.extra.insert("stage_a_done_at_s".into(), json!(ctx.elapsed()));
+
+    // B
+    // every spill does two sync_all(): ~30 ms per spiller on this machine
+    let nps: u64 = if miri { 6 } else if quick { 300 } else { 5_000 };
+    for _ in 0..nps {
+        stage_partition(&mut ctx, &mut rng, case, &scratch, files);
+        case += 1;
+    }
+    ctx.extra.insert("stage_b_done_at_s".into(), json!(ctx.elapsed()));
+    // C
+    let nsq: u64 = if miri { 10 } else if quick { 3_000 } else { 50_000 };
+    for _ in 0..nsq {
+        stage_subquery(&mut ctx, &mut rng, case, files);
+        case += 1;
+    }
+    if files {
+        let left: Vec<String> = std::fs::read_dir(&scratch).map(|d| d.filter_map(|e| e.ok()).map(|e| e.file_name().to_string_lossy().to_string()).collect()).unwrap_or_default();
+        ctx.extra.insert("scratch_entries_left_by_turdb".into(), json!(left.len()));
+        if let Some(f) = left.iter().find(|f| f.starts_with("subquery_spill_")) {
+            viol(&mut ctx, "subquery_spill", "C33/subquery_spill/temp_file_not_removed", || json!({"file": f, "count": left.len()}));
+        }
+        let _ = std::fs::remove_dir_all(&scratch);
+    }
+    ctx.sample(json!({"row": describe(&gen_row(&mut Rng::derive(a.seed, 3333), 8, 64))}));
+    ctx.assumptions.push("NaN: only NaN-ness must survive RowSerde (the format documents a payload-free NAN tag); every other float is compared by bits, which makes -0.0 -> 0.0 or Float -> Int a violation".into());
+    ctx.assumptions.push("PartitionSpiller spill decision follows the module doc: a partition is flushed when the sum of row_size of its in-memory rows exceeds memory_budget / num_partitions".into());
+    if miri {
+        ctx.assumptions.push("Miri run: no files; PartitionSpiller and SpillableBuffer stay on their in-memory paths".into());
+    }
+    ctx.finish()
 }
